@@ -89,6 +89,7 @@ def worlds(n_neighbours, cutoffs, L=60):
                 yield {"L": L, "circ": circ, "genes": genes}
 
 
-HIT_MENU_FULL = [dict(zip("abc", v)) for v in itertools.product((None, 3, 7), (None, 1), (None, 1))]
+# scores for profile a: below / exactly at / above the minscore threshold (5)
+HIT_MENU_FULL = [dict(zip("abc", v)) for v in itertools.product((None, 3, 5, 7), (None, 1), (None, 1))]
 HIT_MENU_FULL = [{k: v for k, v in h.items() if v is not None} for h in HIT_MENU_FULL]
-HIT_MENU_SMALL = [{}, {"a": 3}, {"a": 7}, {"b": 1}, {"a": 7, "b": 1}, {"c": 1}]
+HIT_MENU_SMALL = [{}, {"a": 3}, {"a": 5}, {"a": 7}, {"b": 1}, {"a": 7, "b": 1}, {"c": 1}]
